@@ -264,11 +264,15 @@ def check_digests(ctx, drv, etag_table, label):
     json.dump(etag_table, open(f_in, "w"))
     ctx.run([drv, "digests", f_in, f_out])
     res = json.load(open(f_out))
+    kinds = ctx.extra.setdefault("digest_terms_by_kind", {})
+    for r in res:
+        kk = ("single" if r["term"]["single"] else "multi%d" % len(r["term"]["parts"])) + "/" + r["term"].get("ck", "")
+        kinds[kk] = kinds.get(kk, 0) + 1
     for r in res:
         if not r["ok"]:
             json.dump(r, open(ctx.path("replay-digest.json"), "w"))
             ctx.violation(ctx.path("replay-digest.json"),
-                          "ETag %s returned for structure %s but the rule gives %s" % (r["term"]["raw"], json.dumps(r["term"]), r["expected"]))
+                          "digests %s returned for structure %s but the rules give %s" % (json.dumps(r["term"]["raw"]), json.dumps({k: r["term"][k] for k in ("single", "parts", "ck")}), json.dumps(r["expected"])))
     return len(res)
 
 
